@@ -61,6 +61,10 @@ InvListingIffDeps == phase = "done" =>
 InvHoistedOnce == phase = "done" =>
    LET want == FoldLeft(LAMBDA a, d : a + Len(d.links), 0, R) IN
    CountTags(Doc, "link") = want /\ CountTags(HeadOf(Doc), "link") = want
+\* the transcription of the code and the declarative document tree agree
+InvCodeIsSpec == phase = "done" =>
+   \A pre \in {<<>>, cLib}, iv \in BOOLEAN :
+      RenderedView(GenTreeCode(Content, args, pre, iv)) = DocTree(Content, args, pre, iv)
 InvUserRootKept == phase = "done" => (IsLone(Content, "html") => Doc.attrs = MergeArgs(Content[1].attrs, args))
 Export == phase = "done" =>
    Serialize(ToJson([tree |-> tree, args |-> args]) \o "\n", IOEnv.EXPORT_FILE,
